@@ -380,7 +380,12 @@ func reinitTimeWindowOffset(dims influxql.Dimensions, minT, rangeMillis int64, s
 		if call.Name != "time" || len(call.Args) != 2 {
 			continue
 		}
-		remain := ((minT + rangeMillis) * 1e6) % step.Nanoseconds()
+		// the steps of the subquery are minT, minT+step, ...: the windows are aligned to minT
+		// (aligned to minT + range they are the steps only when the range is a multiple of the step)
+		remain := (minT * 1e6) % step.Nanoseconds()
+		if remain < 0 {
+			remain += step.Nanoseconds()
+		}
 		offset := time.Duration(remain) * time.Nanosecond
 		call.Args[1] = &influxql.DurationLiteral{
 			Val: offset,
